@@ -89,6 +89,8 @@ var c02Table = []c02Ent{
 	{Path: "/idir/index.html", Kind: 'd'},
 	{Path: "/idir/index.html/x.txt", Kind: 'f', Tok: "IDIRX"},
 	{Path: "/idir/index.htm", Kind: 'f', Tok: "IDIR"},
+	{Path: "/hdir", Kind: 'd'}, // hidden directory (`internal /hdir`): not listed, not archived, nothing below it archived
+	{Path: "/hdir/in.txt", Kind: 'f', Tok: "HDIRIN"},
 	{Path: "/hidx", Kind: 'd'},
 	{Path: "/hidx/index.html", Kind: 'f', Tok: "HIDX"},
 	{Path: "/hidx/index.htm", Kind: 'f', Tok: "HIDXB"},
@@ -109,7 +111,7 @@ var c02Table = []c02Ent{
 }
 
 // the hide list the sites end up with: hideCasketfile's entry first, then the `internal` paths
-var c02Internal = []string{"/secret.txt", "/hsib.txt.gz", "/hidx/index.html"}
+var c02Internal = []string{"/secret.txt", "/hsib.txt.gz", "/hidx/index.html", "/hdir"}
 
 func c02Hide() []string { return c02HideOf("static") }
 
@@ -771,7 +773,7 @@ func c02Sig(in *c02In, p, query string) string {
 		return "browse:dir-redirect:path-starts-with-two-slashes"
 	case at.Dir && inScope && get && strings.HasSuffix(p, "/") && c02QueryGet(query, "archive") != "":
 		for _, n := range nodes {
-			if strings.HasPrefix(n.Path, strings.TrimSuffix(c, "/")+"/") && !n.Dir && hiddenID[n.ID] {
+			if strings.HasPrefix(n.Path, strings.TrimSuffix(c, "/")+"/") && hiddenID[n.ID] {
 				return "browse:archive:directory-with-hidden-descendant"
 			}
 		}
@@ -1119,7 +1121,7 @@ func c02Gen(r *Rand, tier string) []interface{} {
 func init() {
 	register(&Property{
 		ID: "C02", Imports: "V.Lib V.GoPath V.Gen_C02 V.Gen_C02b V.C02_Model", Judge: "judge", Shard: 150,
-		Rule:   "real in-process sites (static; browse / with every archive type; browse /dir with zip, tar.gz; the same root under a site path prefix /pre; the origin Casketfile in a sub-directory of the root / outside it / in a sibling directory named root+x) rooted in a fixture with files, nested directories, index pages (incl. a directory named index.html and a hidden index page), .gz/.br/.zst siblings (incl. a hidden one and a directory named like one), hard links, odd names, the origin Casketfile inside the root and `internal`-hidden files, plus token files outside the root; raw request lines: exhaustive targets of depth <= 2 (3 sampled / full) over the segment alphabet {a.txt, dir, ., .., empty, %2e, %2E%2e, %2f, backslash, %5c, A.TXT, Casketfile, x} x trailing slash (static; sampled on browse with ?archive=); every directory x archive types / sort orders / JSON; open-redirect shapes (1..5 leading slashes x foreign first segment x dot-dot x directory or file-with-slash); every file x Accept-Encoding subsets and decoys; random respellings (dot segments, doubled / encoded slashes and dots, case flips, backslashes, climbing above the root, NUL) x methods x queries. Prefix-site cases are judged against the executable property only (CContract). Non-trivial = answers 200 or 3xx",
+		Rule:   "real in-process sites (static; browse / with every archive type; browse /dir with zip, tar.gz; the same root under a site path prefix /pre; the origin Casketfile in a sub-directory of the root / outside it / in a sibling directory named root+x) rooted in a fixture with files, nested directories, index pages (incl. a directory named index.html and a hidden index page), .gz/.br/.zst siblings (incl. a hidden one and a directory named like one), hard links, odd names, the origin Casketfile inside the root, `internal`-hidden files and an `internal`-hidden directory, plus token files outside the root; raw request lines: exhaustive targets of depth <= 2 (3 sampled / full) over the segment alphabet {a.txt, dir, ., .., empty, %2e, %2E%2e, %2f, backslash, %5c, A.TXT, Casketfile, x} x trailing slash (static; sampled on browse with ?archive=); every directory x archive types / sort orders / JSON; open-redirect shapes (1..5 leading slashes x foreign first segment x dot-dot x directory or file-with-slash); every file x Accept-Encoding subsets and decoys; random respellings (dot segments, doubled / encoded slashes and dots, case flips, backslashes, climbing above the root, NUL) x methods x queries. Prefix-site cases are judged against the executable property only (CContract). Non-trivial = answers 200 or 3xx",
 		Gen:    c02Gen,
 		Decode: func(raw json.RawMessage) (interface{}, error) { in := &c02In{}; return in, json.Unmarshal(raw, in) },
 		Run:    c02Run,
